@@ -17,18 +17,57 @@ ORDER_KEEPING = {"iter", "map", "filter_map", "enumerate", "collect", "join", "i
 
 
 def fieldset_dispatch(syn, efile):
-    """the method that matches on Fieldset and calls one renderer per shape -> {variant: renderer name}"""
+    """the method that matches on Fieldset and calls one renderer per shape -> {variant: renderer name}.
+    The all-`_` collapse may sit in the dispatcher instead of the renderers: `Named(f) if f.has_used_field() => named(f, ..)`
+    with the unguarded arm of the same shape going to the empty renderer (recorded in fn["_collapse_in_dispatch"])."""
+    def single_call(b):
+        while b["k"] == "BlockExpr" and len(b["block"]["stmts"]) == 1 and b["block"]["stmts"][0]["k"] == "ExprStmt" and not b["block"]["stmts"][0].get("semi"):
+            b = b["block"]["stmts"][0]["expr"]
+        return b if b["k"] == "MethodCall" and ident_of(b["recv"]) == "self" else None
+
     for (p, impl, fn) in syn.all_fns(path=efile):
         ms = nodes(fn["body"], "Match")
         if len(ms) == 1 and len(fn["body"]["stmts"]) == 1 and "String" in (fn["output"] or ""):
             arms = ms[0]["arms"]
-            vs = {}
+            plain, guarded = {}, {}
+            ok_arms = True
             for a in arms:
-                if a["pat"]["k"] in ("PPath", "PTupleStruct") and len(a["pat"]["path"]["segs"]) == 2 and a["pat"]["path"]["segs"][0] == "Fieldset" and a["body"]["k"] == "MethodCall" and ident_of(a["body"]["recv"]) == "self":
-                    vs[a["pat"]["path"]["segs"][1]] = a["body"]["method"]
-            if set(vs) == {"Empty", "Named", "Tuple"} and any("options" in unparse(x) for x in nodes(fn["body"], "MethodCall")):
-                if all(len(a["body"]["args"]) >= 1 for a in arms) and "options" in [i["pat"].get("name") for i in fn["inputs"] if "pat" in i]:
-                    return fn, vs
+                if not (a["pat"]["k"] in ("PPath", "PTupleStruct") and len(a["pat"]["path"]["segs"]) == 2 and a["pat"]["path"]["segs"][0] == "Fieldset"):
+                    ok_arms = False
+                    continue
+                call = single_call(a["body"])
+                if call is None:
+                    ok_arms = False
+                    continue
+                shape = a["pat"]["path"]["segs"][1]
+                if a.get("guard") is not None:
+                    binder = a["pat"]["elems"][0].get("name") if a["pat"]["k"] == "PTupleStruct" and a["pat"]["elems"] else None
+                    g_ok = binder is not None and unparse(a["guard"]).replace(" ", "") == "%s.has_used_field()" % binder and call["args"] and ident_of(call["args"][0]) == binder and shape not in plain
+                    if not g_ok:
+                        ok_arms = False
+                    guarded[shape] = call
+                else:
+                    plain.setdefault(shape, call)
+            if not ok_arms or set(plain) | set(guarded) != {"Empty", "Named", "Tuple"} or "Empty" not in plain:
+                continue
+            vs = {"Empty": plain["Empty"]["method"]}
+            in_dispatch = {}
+            good = True
+            for shape in ("Named", "Tuple"):
+                if shape in guarded:
+                    # the unguarded remainder of this shape must be rendered like the empty fieldset
+                    good = good and shape in plain and plain[shape]["method"] == vs["Empty"]
+                    vs[shape] = guarded[shape]["method"]
+                    in_dispatch[shape] = True
+                elif shape in plain:
+                    vs[shape] = plain[shape]["method"]
+                    in_dispatch[shape] = False
+                else:
+                    good = False
+            calls = list(plain.values()) + list(guarded.values())
+            if good and any("options" in unparse(x) for x in calls) and all(len(c_["args"]) >= 1 for c_ in calls) and "options" in [i["pat"].get("name") for i in fn["inputs"] if "pat" in i]:
+                fn["_collapse_in_dispatch"] = in_dispatch
+                return fn, vs
     return None, {}
 
 
@@ -180,12 +219,17 @@ def run_rules(ctx, res):
         # all-skipped collapse
         first = fn["body"]["stmts"][0] if fn["body"]["stmts"] else None
         collapse = first is not None and first["k"] == "ExprStmt" and first["expr"]["k"] == "If" and "has_used_field" in unparse(first["expr"]["cond"]) and unparse(first["expr"]["cond"]).startswith("!") and nodes(first["expr"]["then"], "Return") and vs["Empty"] in unparse(nodes(first["expr"]["then"], "Return")[0]["expr"])
+        if not collapse and dfn.get("_collapse_in_dispatch", {}).get(shape):
+            # the dispatcher only calls this renderer under `fieldset.has_used_field()` and sends the rest to the empty
+            # renderer (checked in fieldset_dispatch); the renderer has no other caller
+            callers = [m_ for (p2, i2, f2) in syn.all_fns(path=efile) for m_ in nodes(f2["body"], "MethodCall") if m_["method"] == fn["name"] and ident_of(m_["recv"]) == "self"]
+            collapse = len(callers) == 1
         res.inst(BOX, "renderer|%s|all-skipped-collapse" % shape, where, True, str(bool(collapse)))
         if not collapse:
             res.violate(BOX, "renderer|%s|all-skipped-collapse" % shape, where, "a fieldset whose fields are all `_` must collapse to the empty (unit-like) form: the renderer must start with `if !fieldset.has_used_field() { return <empty renderer> }`")
         # no other way out of the renderer than the collapse above and the field list below
         rets = nodes(fn["body"], "Return")
-        extra = [r_ for r_ in rets if not (collapse and first is not None and any(r_ is x for x in nodes(first["expr"]["then"], "Return")))]
+        extra = [r_ for r_ in rets if not (collapse and first is not None and first["k"] == "ExprStmt" and first["expr"]["k"] == "If" and any(r_ is x for x in nodes(first["expr"]["then"], "Return")))]
         res.inst(BOX, "renderer|%s|single-exit" % shape, where, True, "%d early returns besides the all-skipped collapse" % len(extra))
         for r_ in extra[:1]:
             res.violate(BOX, "renderer|%s|extra-return" % shape, "%s:%d" % (efile, r_["line"]), "the %s fieldset renderer returns early with `%s`: some fieldsets are printed by other code than the per-field arms (Box / payload-type / omission rules no longer cover them)" % (shape.lower(), unparse(r_["expr"])[:100]))
